@@ -3216,6 +3216,12 @@ func (gbi *groupByIterator) nextAtIdx(i int) {
 		}
 		if wrapped && i != 0 {
 			gbi.nextAtIdx(i - 1)
+			if gbi.done {
+				// The fields to the left are exhausted. Without this exit
+				// the loop keeps wrapping field i forever when none of its
+				// rows intersects the (stale) row to its left.
+				return
+			}
 		}
 		if i == 0 && gbi.filter != nil {
 			gbi.rows[i].row = nr.Intersect(gbi.filter)
